@@ -286,6 +286,35 @@ def run(ctx, repo, tier):
                 ctx.inconclusive("ORD", "C16.order", "order of trans_grid not derivable on some branch", where,
                                  witness="; ".join(f"{o}: {w}" for o, w in bad))
 
+    # ---------------------------------------------------------------- bracket contents: between '(' and the matching ')' wherever it stands
+    rb = ci.find_method("_read_within_brackets")
+    if rb is not None:
+        ctx.analysed(rb)
+        ctx.instance("FLOW")
+        cn_rb = Canon(Canon.single_defs(rb.node.body)) if "Canon" in globals() else None
+        le = [n for n in ast.walk(rb.node) if isinstance(n, ast.Call) and src(n.func).split(".")[-1] == "literal_eval" and n.args]
+        if not le:
+            ctx.inconclusive("FLOW", "C16.brackets", "evaluation of the bracket contents not found", rb.where)
+        else:
+            from ..astutil import Canon as _Cn
+            e_ = _Cn(_Cn.single_defs(rb.node.body)).expand(le[0].args[0])
+            # first definition of a re-assigned name: walk assignments in order
+            firsts = [a_.value for a_ in rb.node.body if isinstance(a_, ast.Assign) and isinstance(a_.targets[0], ast.Name) and
+                      isinstance(le[0].args[0], ast.Name) and a_.targets[0].id == le[0].args[0].id]
+            if firsts:
+                e_ = firsts[0]
+            txt_ = src(e_).replace(" ", "").replace('"', "'")
+            by_close = any(w_ in txt_ for w_ in (".split(')')[0]", ".rsplit(')',1)[0]", ".partition(')')[0]", ".rpartition(')')[0]"))
+            fixed = isinstance(e_, ast.Subscript) and isinstance(e_.slice, ast.Slice) and e_.slice.upper is not None and \
+                isinstance(e_.slice.upper, (ast.UnaryOp, ast.Constant)) and ".strip()" not in txt_ and ".rstrip()" not in txt_
+            if by_close:
+                ctx.ok("FLOW", "C16.brackets", "the bracket contents end at the closing bracket, wherever it stands in the text", rb.where, src(e_)[:120])
+            elif fixed:
+                ctx.violate("FLOW", "C16.brackets", "the bracket contents are cut at a fixed position from the END of the text: any character after the "
+                            "closing bracket (a trailing newline or blank, as in a value read from a file) ends up inside the expression and the "
+                            "grid is not parsed", rb.where, src(e_)[:120], witness="'linspace(0.2, 0.4, 10)\\n'[:-1] still ends in ')'")
+            else:
+                ctx.inconclusive("FLOW", "C16.brackets", "extraction of the bracket contents not recognised", rb.where, witness=src(e_)[:120])
     # ---------------------------------------------------------------- DOM: check dominates conversion and hash
     cfg = CFG(init.node)
     def is_self_attr(n, attr):
